@@ -329,10 +329,39 @@ def _run(program: Program, prop: str):
     return ctx, None
 
 
+_BASE: Program | None = None
+
+
+def _job(job):
+    """Worker: one variant.  Returns (tag, kind, error or None, [(key, rule, construct)])."""
+    kind, prop = job[0], job[1]
+    base = _BASE
+    if kind == "mutant":
+        _, _, mid, path, old, new = job
+        var = base.with_source(path, base.sources[path].replace(old, new, 1))
+        tag = mid
+    else:
+        _, _, q, rk = job
+        var = rewrite_function(base, q, rk)
+        tag = f"{rk}:{q}"
+        if var is None:
+            return tag, kind, "anchor function missing", []
+    try:
+        c2, err = _run(var, prop)
+    except Exception as e:   # an analyser crash on a variant is reported, never hidden
+        return tag, kind, f"internal error: {type(e).__name__}: {e}", []
+    return tag, kind, err, [(f.key, f.rule, f.construct[:90]) for f in c2.findings]
+
+
 def run(ctx: Ctx) -> None:
+    global _BASE
+    import multiprocessing as mp
+    import os
     prop = ctx.prop
     base = {f.key for f in ctx.findings}
     detected, missed, skipped, errors = [], [], [], []
+    jobs = []
+    expect = {}
     for mid, mprop, path, old, new, rules in MUTANTS:
         if mprop != prop:
             continue
@@ -340,35 +369,43 @@ def run(ctx: Ctx) -> None:
         if srcs is None or old not in srcs:
             skipped.append(mid)
             continue
-        var = ctx.p.with_source(path, srcs.replace(old, new, 1))
         try:
-            ast.parse(var.sources[path])
+            ast.parse(srcs.replace(old, new, 1))
         except SyntaxError:
             skipped.append(mid)
             continue
-        c2, err = _run(var, prop)
-        newf = [f for f in c2.findings if f.key not in base]
-        if err and not newf:
-            errors.append({"id": mid, "error": err[:160]})
-        elif newf and (rules is None or any(f.rule in rules for f in newf)):
-            detected.append({"id": mid, "rules": sorted({f.rule for f in newf})})
-        elif newf:
-            detected.append({"id": mid, "rules": sorted({f.rule for f in newf}), "note": f"expected one of {sorted(rules)}"})
-        else:
-            missed.append(mid)
-    silent, noisy = [], []
+        expect[mid] = rules
+        jobs.append(("mutant", prop, mid, path, old, new))
     for q in ANCHORS.get(prop, []):
         for kind in ("rename", "aug", "pass"):
-            var = rewrite_function(ctx.p, q, kind)
-            if var is None:
+            jobs.append(("rewrite", prop, q, kind))
+    _BASE = ctx.p
+    nproc = max(1, min(16, os.cpu_count() or 1, len(jobs)))
+    if nproc > 1 and len(jobs) > 3:
+        with mp.get_context("fork").Pool(nproc) as pool:
+            results = pool.map(_job, jobs)
+    else:
+        results = [_job(j) for j in jobs]
+    silent, noisy = [], []
+    for tag, kind, err, fs in results:
+        newf = [f for f in fs if f[0] not in base]
+        if kind == "mutant":
+            rules = expect[tag]
+            if err and not newf:
+                errors.append({"id": tag, "error": err[:160]})
+            elif newf and (rules is None or any(f[1] in rules for f in newf)):
+                detected.append({"id": tag, "rules": sorted({f[1] for f in newf})})
+            elif newf:
+                detected.append({"id": tag, "rules": sorted({f[1] for f in newf}), "note": f"expected one of {sorted(rules)}"})
+            else:
+                missed.append(tag)
+        else:
+            if err == "anchor function missing":
                 continue
-            c2, err = _run(var, prop)
-            newf = [f for f in c2.findings if f.key not in base]
-            tag = f"{kind}:{q}"
             if err and not newf:
                 noisy.append({"rewrite": tag, "analysis_error": err[:160]})
             elif newf:
-                noisy.append({"rewrite": tag, "false_alarms": [f"{f.rule}: {f.construct[:90]}" for f in newf[:3]]})
+                noisy.append({"rewrite": tag, "false_alarms": [f"{f[1]}: {f[2]}" for f in newf[:3]]})
             else:
                 silent.append(tag)
     ctx.extra["selfcheck"] = {
